@@ -595,3 +595,34 @@ def _arr_try_from(e, c, a):
         return err(Agg([], ty='TryFromSliceError'))
     s = Seq([copy_val(v) for v in vals], arr=True)
     return ok(Ref(Cell(s)) if c.startswith('<&') else s)
+
+
+# ---------------------------------------------------------------- core::simd::Simd<i32, 8> (lane-wise model)
+@model(r'Simd::<.*>::from_slice|core::simd::Simd::<.*>::from_slice|std::simd::Simd::<.*>::from_slice', 'Simd::from_slice (lane-wise)')
+def _simd_from_slice(e, c, a):
+    m = re.search(r'Simd::<\w+, (\d+)>', c)
+    n = int(m.group(1))
+    vals = seq_values(a[0])
+    if len(vals) < n:
+        raise Panic('Simd::from_slice: slice length must be at least the number of elements')
+    return Seq([copy_val(v) for v in vals[:n]], arr=True)
+
+
+@model(r'Simd::<.*>::as_array|Simd::<.*>::as_mut_array|Simd::<.*>::to_array')
+def _simd_as_array(e, c, a):
+    if c.endswith('to_array'):
+        return copy_val(deref_all(a[0]))
+    return a[0]
+
+
+@model(r'<Simd<.*> as From<\[.*\]>>::from|Simd::<.*>::from_array|<\[.*\] as From<Simd<.*>>>::from')
+def _simd_from_array(e, c, a):
+    return a[0]
+
+
+@model(r'<Simd<.*> as AddAssign<&Simd<.*>>>::add_assign|<Simd<.*> as AddAssign>::add_assign|<Simd<.*> as AddAssign<Simd<.*>>>::add_assign', 'Simd += (lane-wise wrapping add)')
+def _simd_add_assign(e, c, a):
+    dst = seq_cells(a[0]); src = seq_values(a[1])
+    for d, s in zip(dst, src):
+        d.v = e.binop('Add', d.v, s)
+    return UNIT
